@@ -582,7 +582,11 @@ def run(tier, seed, replay):
     T = 0.5
     levels = [16, 32, 64, 128] if tier == "quick" else [16, 32, 64, 128, 256]
     nf = levels[-1]
-    for het in (False,):
+    # On a single path the error of a scheme of strong order 1/2 does not decrease monotonically; "does not converge" is
+    # reported only when the finest level is no better than the coarser ones on every one of several independent paths.
+    npaths = 2 if tier == "quick" else 3
+    stalled = {}
+    for het in [False] * npaths:
         finest = rng.standard_normal((1, nf)) * np.sqrt(T / nf)
         finals = {}
         for which, methods in (("sme", sme_methods), ("sse", sse_methods)):
@@ -630,8 +634,11 @@ def run(tier, seed, replay):
                 rep.evaluations += 1
                 if ds[-1] > 0.08:
                     v(f"common-limit:{name}", f"{name}: on one Brownian path refined to dt = {T / nf:.4f} the final state is {ds[-1]:.3f} away from the limit shared by the other schemes (levels: {['%.3f' % x for x in ds]})", {"scheme": name, "distances": ds})
-                elif ds[-1] > 0.6 * ds[0] + 0.01:
-                    v(f"no-convergence:{name}", f"{name}: the distance to the common limit does not decrease under refinement: {['%.3f' % x for x in ds]}", {"scheme": name, "distances": ds})
+                elif ds[-1] > 0.6 * max(ds[:-1]) + 0.01:
+                    stalled.setdefault(name, []).append(ds)
+    for name, dss in stalled.items():
+        if len(dss) == npaths:
+            v(f"no-convergence:{name}", f"{name}: on each of {npaths} Brownian paths the distance to the common limit does not decrease under refinement: {[['%.3f' % x for x in ds] for ds in dss]}", {"scheme": name, "distances": dss})
     for sig, (what, data) in viol.items():
         rep.violation(core.Violation("C17:" + sig, what, data))
     if (ndis or not proved) and not rep.violations:
